@@ -21,7 +21,8 @@ Proof. split; vm_compute; reflexivity. Qed.
 Lemma gen_golden_frame :
   AlayLayout.frame_size = AlayGolden.frame_size /\ AlayLayout.start_flag = AlayGolden.start_flag /\
   AlayLayout.end_flag = AlayGolden.end_flag /\ AlayLayout.length_field = AlayGolden.length_field /\
-  AlayLayout.block_order = AlayGolden.block_order /\ AlayLayout.clock_read = AlayGolden.clock_read.
+  AlayLayout.block_order = AlayGolden.block_order /\ AlayLayout.clock_read = AlayGolden.clock_read /\
+  AlayLayout.mode_codes = AlayGolden.mode_codes.
 Proof. repeat split; vm_compute; reflexivity. Qed.
 Lemma gen_golden_env :
   AlayLayout.env_AZ = AlayGolden.env_AZ /\ AlayLayout.env_EL = AlayGolden.env_EL /\
@@ -203,3 +204,44 @@ Lemma pinned_interlock_refuted :
     set AlayLayout.env_default pinned_ES_SP (VBool true) b1 = Some b2 /\
     get pinned_EStop b2 = Some (VBool true) /\ get pinned_ES_SP b2 = Some (VBool false).
 Proof. split; [reflexivity|]. eexists. eexists. repeat split; vm_compute; reflexivity. Qed.
+
+(* ---------- command records ---------- *)
+(* whatever mode id a mode command carries, the recorded "received mode command" is a documented code *)
+Lemma received_mode_documented m : In (received_mode AlayLayout.mode_codes m) AlayLayout.mode_codes.
+Proof.
+  unfold received_mode. destruct (existsb (Z.eqb m) AlayLayout.mode_codes) eqn:E.
+  - apply existsb_exists in E as (x & Hx & Ex). apply Z.eqb_eq in Ex. now subst x.
+  - vm_compute. auto.
+Qed.
+
+Lemma received_mode_known m : In m AlayLayout.mode_codes -> received_mode AlayLayout.mode_codes m = m.
+Proof.
+  intros H. unfold received_mode.
+  replace (existsb (Z.eqb m) AlayLayout.mode_codes) with true; [reflexivity|].
+  symmetry. apply existsb_exists. exists m. split; [exact H|apply Z.eqb_refl].
+Qed.
+
+(* ---------- an assignment on one subsystem leaves every other block of the System alone ---------- *)
+Lemma nth_error_upd_other' {A} k j (x : A) l : k <> j -> nth_error (upd k x l) j = nth_error l j.
+Proof. apply nth_error_upd_other. Qed.
+
+Lemma sys_set_other descs k op st j : j <> k -> nth_error (sys_set descs k op st) j = nth_error st j.
+Proof.
+  intros H. unfold sys_set. destruct (nth_error descs k) as [[t e]|]; [|reflexivity].
+  destruct (nth_error st k); [|reflexivity]. apply nth_error_upd_other. congruence.
+Qed.
+
+Lemma sys_set_length descs k op st : length (sys_set descs k op st) = length st.
+Proof.
+  unfold sys_set. destruct (nth_error descs k) as [[t e]|]; [|reflexivity].
+  destruct (nth_error st k); [|reflexivity]. apply upd_length.
+Qed.
+
+(* a history that never addresses block j leaves block j as it was *)
+Lemma sys_run_untouched descs ops : forall st j, (forall o, In o ops -> fst o <> j) ->
+  nth_error (sys_run descs ops st) j = nth_error st j.
+Proof.
+  unfold sys_run. induction ops as [|o ops IH]; intros st j H; [reflexivity|].
+  cbn [fold_left]. rewrite IH by (intros o' Ho'; apply H; right; exact Ho').
+  apply sys_set_other. intros E. apply (H o); [left; reflexivity|auto].
+Qed.
